@@ -1086,7 +1086,7 @@ def surface_cases(draw):
         case['forms'] = {'hkl': draw(g14.int_forms), 'shift': draw(g14.float_forms), 'mults': draw(g14.mult_forms),
                          'num': draw(g14.scalar_forms), 'idx': draw(g14.index_forms)}
     k = draw(_int20)
-    if k < 3:
+    if k < 4:
         # class E: minwidth a hair below / above / exactly at a whole number of oriented cells
         case['minwidth_near'] = {'n': draw(st.integers(1, 5)), 'e': draw(_mw_exp), 'sign': draw(_pm)}
         case['minwidth'] = 1.0
@@ -1100,7 +1100,7 @@ def surface_cases(draw):
 
 _pm = st.sampled_from([1, -1])
 _nl_delta = st.sampled_from([1e-6, 2e-6, 5e-6, 1e-5, 3e-5, 1e-4])
-_mw_exp = st.sampled_from([None, None, -13, -12, -7, -6, -5, -4, -3])
+_mw_exp = st.sampled_from([None, None, None, -13, -12, -7, -6, -5, -4, -3])
 
 
 def add_near_layer(u, h3, delta, sel, sel2):
@@ -1746,6 +1746,7 @@ _outs = st.sampled_from([0.5, -0.3, 1.25, 0.1])
 _custom_where = st.sampled_from(['init', 'fault', 'fault', 'setter', 'setter'])
 
 
+_which = st.sampled_from(['both', 'both', 'a1', 'a1', 'a2'])
 _fkind = st.sampled_from(['a12', 'a12', 'a12', 'a12', 'lattice', 'lattice', 'faultshift', 'faultshift', 'a12out', 'default'])
 
 
@@ -1760,7 +1761,7 @@ def fault_cases(draw):
     kind = draw(_fkind)
     sh = {'kind': kind}
     if kind in ('a12', 'a12out'):
-        which = draw(st.sampled_from(['both', 'both', 'a1', 'a2']))
+        which = draw(_which)
         sh['a1'] = draw(_frac15) if which != 'a2' else None
         sh['a2'] = draw(_frac15) if which != 'a1' else None
         if kind == 'a12out':
@@ -1784,7 +1785,7 @@ def fault_cases(draw):
             step['after'] = {'op': 'set_rel', 'v': draw(_relpos)}
         elif k < 4:
             step['after'] = {'op': 'set_cart', 'v': draw(_relpos)}
-        elif k < 6:
+        elif k < 7:
             step['after'] = {'op': 'fault', 'a1': draw(_frac15), 'a2': draw(_frac15),
                              'fpos': draw(_relpos) if draw(_bool) else None}
         else:
@@ -2501,8 +2502,8 @@ CLAUSES = [
                 'settings, Miller-Bravais: integer, right-handed, zone law exact, out-of-plane row on the normal side, normal = +g'),
     Clause('basis_random', oracle_basis_random, basis_random_cases, quick=560, thorough=13000,
            min_share=dict({'nt': 0.35, 'centred': 0.1, 'rigid_rot': 0.15,
-                           'hkl_form': 0.2, 'hkl_narrow': 0.1, 'caller_mut': 0.1, 'ledger': 0.1, 'sym': 0.13, 'sym_perm': 0.1,
-                           'sym_relabel': 0.04, 'near_sym': 0.035}, **_unit_guards(0.1, 0.03, 0.23, 0.11)),
+                           'hkl_form': 0.2, 'hkl_narrow': 0.065, 'caller_mut': 0.1, 'ledger': 0.1, 'sym': 0.13, 'sym_perm': 0.1,
+                           'sym_relabel': 0.025, 'near_sym': 0.023}, **_unit_guards(0.1, 0.03, 0.23, 0.11)),
            max_share={'refusal': 0.15},
            desc='the same oracle on random cells of every family / centred setting (30 % rigidly rotated), planes up to index 4'),
     Clause('surface', oracle_surface, surface_cases, quick=520, thorough=11500,
@@ -2511,11 +2512,11 @@ CLAUSES = [
                            'history_second_surface': 0.26, 'history_third_surface': 0.1, 'history_shift_persisted': 0.07,
                            'history_set_shift': 0.16, 'history_defaults_after_given': 0.14,
                            # classes carried over from the seeded rounds
-                           'ledger': 0.26, 'ledger_other': 0.04, 'forms': 0.09, 'hkl_form': 0.085, 'hkl_narrow': 0.04, 'shift_form': 0.08,
-                           'mults_form': 0.065, 'npscalar_form': 0.08, 'store': 0.085, 'store_narrow_float': 0.045, 'store_layout': 0.04,
-                           'near_layer': 0.03, 'near_layer_judged': 0.018, 'minwidth_near': 0.05, 'minwidth_exact': 0.02, 'near_sym': 0.035,
-                           'sym': 0.075, 'sym_perm': 0.06, 'sym_relabel': 0.025, 'rows_signed_perm': 0.045},
-                          **_caller_guards(0.02, 0.08, 0.02), **_unit_guards(0.09, 0.04, 0.23, 0.08)),
+                           'ledger': 0.26, 'ledger_other': 0.03, 'forms': 0.065, 'hkl_form': 0.055, 'hkl_narrow': 0.03, 'shift_form': 0.06,
+                           'mults_form': 0.04, 'npscalar_form': 0.06, 'store': 0.055, 'store_narrow_float': 0.022, 'store_layout': 0.025,
+                           'near_layer': 0.022, 'near_layer_judged': 0.012, 'minwidth_near': 0.03, 'minwidth_exact': 0.008, 'near_sym': 0.017,
+                           'sym': 0.06, 'sym_perm': 0.045, 'sym_relabel': 0.015, 'rows_signed_perm': 0.025},
+                          **_caller_guards(0.008, 0.06, 0.015), **_unit_guards(0.09, 0.04, 0.23, 0.08)),
            max_share={'refusal_search': 0.25, 'refusal_cut': 0.4, 'layer_ambiguous': 0.05, 'c04_filtering_skip': 0.02},
            desc='FreeSurface: chosen vectors, transform, rcellwidth; all offered shifts halfway between atomic planes, one per gap; built '
                 'systems: pbc, box = multipliers x oriented cell, same crystal by map-back with multiplicity, cut between planes, '
@@ -2531,10 +2532,10 @@ CLAUSES = [
                       'history_shift_persisted': 0.05, 'history_set_shift': 0.17, 'history_pre_fault': 0.08,
                       # classes carried over from the seeded rounds
                       'ledger': 0.28, 'ledger_other': 0.05, 'forms': 0.08, 'hkl_form': 0.075, 'hkl_narrow': 0.04, 'shift_form': 0.065,
-                      'mults_form': 0.04, 'npscalar_form': 0.07, 'store': 0.065, 'store_narrow_float': 0.035, 'fpos_near_layer': 0.015,
-                      'kind_a12near': 0.02, 'decades': 0.015, 'near_sym': 0.045, 'sym': 0.1, 'sym_perm': 0.085, 'sym_relabel': 0.04,
-                      'rows_signed_perm': 0.05,
-                      **_caller_guards(0.08, 0.12), **_unit_guards(0.09, 0.045, 0.24, 0.09)},
+                      'mults_form': 0.04, 'npscalar_form': 0.07, 'store': 0.05, 'store_narrow_float': 0.025, 'fpos_near_layer': 0.012,
+                      'kind_a12near': 0.015, 'decades': 0.01, 'near_sym': 0.03, 'sym': 0.065, 'sym_perm': 0.055, 'sym_relabel': 0.013,
+                      'rows_signed_perm': 0.035,
+                      **_caller_guards(0.06, 0.1), **_unit_guards(0.09, 0.045, 0.24, 0.09)},
            max_share={'refusal_search': 0.25, 'refusal_cut': 0.4, 'c04_filtering_skip': 0.02, 'atom_on_fault_plane_exempt': 0.15},
            desc='StackingFault.fault: atoms not above the plane stay, atoms above move by a1*a1vect + a2*a2vect + outofplane (or the '
                 'given faultshift) modulo the in-plane cell vectors; full lattice vectors restore the slab; fault positions between '
